@@ -605,6 +605,10 @@ double CPyTagged_TrueDivide(CPyTagged x, CPyTagged y) {
 
 static PyObject *CPyLong_ToBytes(PyObject *v, Py_ssize_t length, int little_endian, int signed_flag) {
     // This is a wrapper for PyLong_AsByteArray and PyBytes_FromStringAndSize
+    if (length < 0) {
+        PyErr_SetString(PyExc_ValueError, "length argument must be non-negative");
+        return NULL;
+    }
     PyObject *result = PyBytes_FromStringAndSize(NULL, length);
     if (!result) {
         return NULL;
